@@ -101,6 +101,29 @@ func Gen(t *rapid.T, o Opts) Prog {
 			{T: "store", Ref: s.Name, Mode: rapid.SampledFrom([]string{"get", "get", "deltas"}).Draw(t, "forcedmode")}}
 		g.Mods = append(g.Mods, m)
 	}
+	if rapid.IntRange(0, 9).Draw(t, "downstreamonly") < 3 {
+		// a mapper driven only by other modules' outputs (no block, no clock): tier2 may then skip the block source
+		var maps, stores []gdsl.Mod
+		for _, m := range g.Mods {
+			switch m.Kind {
+			case "map":
+				maps = append(maps, m)
+			case "store":
+				stores = append(stores, m)
+			}
+		}
+		if len(maps) > 0 {
+			src := maps[rapid.IntRange(0, len(maps)-1).Draw(t, "downsrc")]
+			m := gdsl.Mod{Name: fmt.Sprintf("map_%d", len(g.Mods)), Kind: "map", Initial: src.Initial + rapid.SampledFrom([]uint64{0, 0, 2}).Draw(t, "downabove")}
+			m.Entry = m.Name
+			m.Inputs = []gdsl.In{{T: "map", Ref: src.Name}}
+			if len(stores) > 0 && rapid.Bool().Draw(t, "downstore") {
+				st := stores[rapid.IntRange(0, len(stores)-1).Draw(t, "downstoreref")]
+				m.Inputs = append(m.Inputs, gdsl.In{T: "store", Ref: st.Name, Mode: rapid.SampledFrom([]string{"get", "deltas"}).Draw(t, "downmode")})
+			}
+			g.Mods = append(g.Mods, m)
+		}
+	}
 	p := Prog{Graph: g, Beh: map[string]dslrt.Behaviour{}, Seed: rapid.Uint64Range(1, 1<<30).Draw(t, "seed")}
 	for i, m := range g.Mods {
 		b := dslrt.Behaviour{Kind: m.Kind, Seed: p.Seed*1000 + uint64(i)}
